@@ -28,6 +28,13 @@ DumpOK(c) == LET z == ZoneOf(c.zone) IN
     /\ Len(c.dump.recs) = Cardinality(z.recs)
     /\ z.auth => c.dump.soa = z.soa
 
+\* after merges (a history of Zone::merge calls) the zone is taken as the real one presents it (all_records): what
+\* merging must produce is C12's subject; C02 is that lookups return the records the zone HOLDS, with their TTLs
+ZoneHeld(c) ==
+    IF c.merged
+    THEN [apex |-> c.dump.apex, auth |-> c.dump.auth, min |-> 0, soa |-> c.dump.soa, recs |-> Range(c.dump.recs)]
+    ELSE ZoneOf(c.zone)
+
 Norm(res) == [kind |-> res.kind, rrs |-> Range(res.rrs), cname |-> res.cname]
 
 Owned(z, n, res) ==
@@ -53,11 +60,12 @@ Check(i) ==
     LET c == Rec[i] IN
     IF c.ev # "zone_resolve"
     THEN PrintT(<<"REJECT", ToJson([line |-> i, why |-> c.ev, qs |-> <<>>])>>)
-    ELSE LET z == ZoneOf(c.zone)
+    ELSE LET z == ZoneHeld(c)
              bad == { k \in DOMAIN c.results : ~ResOK(z, c.results[k]) }
              drift == { k \in DOMAIN c.results : ~DriftFree(z, c.results[k]) }
-         IN /\ IF bad = {} /\ DumpOK(c) THEN TRUE
-               ELSE PrintT(<<"REJECT", ToJson([line |-> i, why |-> IF DumpOK(c) THEN "result" ELSE "dump",
+             dumpOK == c.merged \/ DumpOK(c)
+         IN /\ IF bad = {} /\ dumpOK THEN TRUE
+               ELSE PrintT(<<"REJECT", ToJson([line |-> i, why |-> IF dumpOK THEN "result" ELSE "dump",
                                                 qs |-> SetToSeq(bad)])>>)
             /\ IF drift = {} THEN TRUE
                ELSE PrintT(<<"DRIFT", ToJson([line |-> i, qs |-> SetToSeq(drift)])>>)
